@@ -136,6 +136,14 @@ func replay(f lib.Flags) int {
 		ans, changes := runHailCase(c)
 		hailViolations(c, changes, m)
 		fmt.Printf("replay hail %v -> %s\n", c, ans)
+	case "create":
+		var c createCase
+		if err := json.Unmarshal(b, &c); err != nil {
+			lib.Fatal(err)
+		}
+		ans, inFlight := runCreateCase(c)
+		createViolation(c, inFlight, m)
+		fmt.Printf("replay create %v -> %s\n", c, ans)
 	case "incl":
 		var c inclCase
 		if err := json.Unmarshal(b, &c); err != nil {
